@@ -165,7 +165,11 @@ type loggerWriter struct {
 }
 
 func (l *loggerWriter) Write(p []byte) (int, error) {
+	// Report the number of bytes consumed from the caller's buffer, not the
+	// length of the trimmed message: io.Writer requires n == len(p) when no
+	// error is returned.
+	n := len(p)
 	p = bytes.TrimSpace(p)
 	l.logFunc(string(p))
-	return len(p), nil
+	return n, nil
 }
